@@ -46,6 +46,13 @@ ASSUMPTIONS = [
 REQUIRED_COUNTERS = ['rt.identical', 'rt.reencoded', 'lazy.compared', 'json.identical', 'edit.walked',
                      'graft.cases']
 EXHAUSTIVE = {'quick': False, 'thorough': False}
+# every box class registered with the parser must have been re-encoded and compared at least once
+REGISTERED = ['UUID(a2394f525a9b4f14a2446c427c648df4)', 'ac-3', 'avc1', 'avc3', 'avcC', 'btrt', 'dac3', 'dec3',
+              'ec-3', 'emsg', 'enca', 'encv', 'esds', 'frma', 'ftyp', 'hdlr', 'hev1', 'hvc1', 'hvcC', 'mdhd',
+              'mdia', 'mehd', 'mfhd', 'mime', 'minf', 'moof', 'moov', 'mp4a', 'mvex', 'mvhd', 'pasp', 'pssh',
+              'saio', 'saiz', 'schi', 'schm', 'senc', 'sidx', 'sinf', 'stbl', 'stpp', 'stsd', 'styp', 'tenc',
+              'tfdt', 'tfhd', 'tkhd', 'traf', 'trak', 'trex', 'trun', 'udta', 'vttC', 'wvtt']
+REQUIRED_COUNTERS += [f'box.{n}' for n in REGISTERED]
 
 FIX = REPO / 'tests' / 'fixtures'
 
@@ -445,6 +452,11 @@ def monitor_roundtrip(res: ShardResult, mp4, case: dict, replay: dict) -> bool:
                     res.count('rt.reencoded')
                     for k in keys:
                         res.keys.add(f'rt:{k}')
+                    for b in root.walk():
+                        if b.type == b'uuid':
+                            res.count(f'box.UUID({b.usertype.hex()})' if b.usertype == bw.PIFF_UUID else 'box.uuid-unknown')
+                        elif b.type != b'root':
+                            res.count(f'box.{b.name()}')
                 res.bucket('rt.mode', label)
     return ok
 
@@ -872,6 +884,9 @@ def run_shard(ctx: ShardCtx) -> ShardResult:
         run_case(res, mp4, case, r.get('edits_eager'), r.get('edits_lazy'))
         return res
     rng = ctx.rng
+    missing = sorted(set(mp4.fourcc.BOXES) - set(REGISTERED))
+    if missing:
+        res.inconclusive.append(f'box classes registered with the parser that this check has no generator for: {missing}')
     stsds = fixture_stsds()
     res.count('fixtures.stsd', len(stsds))
     n = ctx.scale(1500, 40000)
